@@ -178,7 +178,7 @@ def flexvec(t, l):
 
 class Def:
     def __init__(self, name, kind, sized, fields=None, variants=None, tag=None, default=False, portable=False,
-                 vis="pub", style="named", discrs=None, vattrs=None):
+                 vis="pub", style="named", discrs=None, vattrs=None, extra=""):
         self.name = name
         self.kind = kind  # struct | enum
         self.sized = sized
@@ -190,6 +190,7 @@ class Def:
         self.vis = vis
         self.style = style
         self.discrs = discrs
+        self.extra = extra  # extra user code next to the definition (e.g. inherent methods that must not hijack generated code)
         self.vattrs = vattrs or {}
         self.c_like = kind == "enum" and all(not v[2] for v in variants)
         if default and kind == "struct":
@@ -324,7 +325,7 @@ class Def:
                 body = "(" + ", ".join("%s%s" % (vis, t.rust) for _, t in self.fields) + ");"
             else:
                 body = ";"
-            return "%s\n%sstruct %s%s\n" % (a, vis, self.name, body)
+            return "%s\n%sstruct %s%s\n%s" % (a, vis, self.name, body, self.extra)
         lines = []
         for i, (vn, st, fs, isdef) in enumerate(self.variants):
             pre = "    #[default]\n" if (isdef and self.default) else ""
@@ -465,6 +466,10 @@ def build(tier):
     # the tail's granule (3-byte elements) does not tile the struct's alignment: as_bytes() of the struct must still cover the whole value
     vec_tri_u8 = flatvec(array(U8, 3), U8)
     us_tri = D("USTri", "struct", False, fields=[("id", U32), ("items", vec_tri_u8)], default=True)
+    # macro hygiene: a user type with an inherent method named like a trait method the generated code calls on it
+    us_inh = D("USInh", "struct", False, fields=[("kind", U8), ("items", vec_u8_u8)], default=True,
+               extra="impl USInh {\n    /// number of items - ordinary user API with the name of FlatBase::size\n    pub fn size(&self) -> usize { self.items.len() }\n}\n")
+    us_hij = D("USHij", "struct", False, fields=[("id", U32), ("payload", us_inh.t)], default=True)
     us_pad2 = D("USPad2", "struct", False, fields=[("a", U8), ("b", U64), ("c", U16), ("s", str_u8)], default=True)
 
     # ---- unsized enums
